@@ -14,3 +14,13 @@ pub struct Entered;
 #[macro_export] macro_rules! event { ($($t:tt)*) => {{}}; }
 #[macro_export] macro_rules! info_span { ($($t:tt)*) => { $crate::Span }; }
 #[macro_export] macro_rules! debug_span { ($($t:tt)*) => { $crate::Span }; }
+#[macro_export] macro_rules! trace_span { ($($t:tt)*) => { $crate::Span }; }
+#[macro_export] macro_rules! warn_span { ($($t:tt)*) => { $crate::Span }; }
+#[macro_export] macro_rules! error_span { ($($t:tt)*) => { $crate::Span }; }
+#[macro_export] macro_rules! span { ($($t:tt)*) => { $crate::Span }; }
+impl Span {
+    pub fn none() -> Span { Span }
+    pub fn in_scope<T, F: FnOnce() -> T>(&self, f: F) -> T { f() }
+    pub fn entered(self) -> Entered { Entered }
+    pub fn is_disabled(&self) -> bool { true }
+}
